@@ -18,7 +18,8 @@ RULE = (
     "reduce/newargs/setstate state; a second exhaustive alphabet of all container-building and "
     "-mutating opcodes with duplicate/distinct keys, memo aliasing and DUP): the value bound to `result` when the source runs over inert "
     "stubs must canonicalise (identity-aware for call results) equal to the reference VM's return "
-    "value, and the multisets of call events must be equal. Non-trivial = nested container, "
+    "value, and the multisets of call events must be equal. Integers around and beyond the interpreter's int/str "
+    "digit limit (both signs) are part of the natural values: printed right or refused. Non-trivial = nested container, "
     "shared reference, instance with state, memo GET of a mutable, or BUILD; distinct = distinct "
     "byte strings. Programs that mutate a container after it was passed to a call (excluded above "
     "because of KF-C03-2) are judged on the final value only, with call results rendered with "
